@@ -140,6 +140,36 @@ func (d *c29Disk) BatchSave(entries []*DBEntry) error {
 			}
 		}
 	}
+	if err == nil {
+		// an acknowledged snapshot holds every proof accepted before it was written whose epoch is
+		// still inside the active window (so that no claim round can have gathered it): SendNewProof
+		// stores under the write lock, the snapshot collects and writes under the read lock
+		inBatch := map[c29Key]uint64{}
+		for _, e := range entries {
+			if rec := w.decode(e.Data); rec != nil && rec.cu > inBatch[rec.key] {
+				inBatch[rec.key] = rec.cu
+			}
+		}
+		for _, K := range w.keys {
+			if K.spec != d.st.spec || K.epoch+w.dist <= w.cur {
+				continue
+			}
+			c := L.restored[K]
+			for _, q := range w.sent[K] {
+				if q.life == L.idx && q.recvSeq > 0 && q.cu > c {
+					c = q.cu
+				}
+			}
+			if c == 0 {
+				continue
+			}
+			w.r.OracleEvals++
+			if inBatch[K] < c {
+				w.viol("snapshot-misses-received-proof", "acknowledged-snapshot", fmt.Sprintf("key %s: SendNewProof had accepted CuSum %d before this snapshot of chain %s was written and acknowledged, its epoch is still active (chain at %d, window %d) so no claim can have removed it, but the snapshot holds CuSum %d for it (0 = absent): a crash now loses a proof that counts as snapshotted", K, c, d.st.spec, w.cur, w.dist, inBatch[K]))
+				return err
+			}
+		}
+	}
 	if L.trigSinceSnap == 0 {
 		w.r.Probe("snapshot_by_timer")
 	}
@@ -372,7 +402,8 @@ type c29World struct {
 	threshold, snapSec         uint
 	specs                      []string
 	cons                       []c29Consumer
-	sessIDs                    [][]uint64 // per consumer
+	sessIDs                    []uint64 // nil: honest consumers (fresh random 63-bit id per session)
+	sessMode                   int
 	nLives                     int
 	adaptiveCrash              bool
 
@@ -478,10 +509,11 @@ func c29Err(err error) string {
 // c29GoIDs returns the id of the current goroutine and of the goroutine that created it. Used only
 // to link a TxRelayPayment call to the claim round (runRewardServerEpochUpdate goroutine) that
 // gathered it; ids are never logged.
+var c29StackBuf = make([]byte, 1<<14) // only the task holding the scheduler token uses it
+
 func c29GoIDs() (self, parent int64) {
-	buf := make([]byte, 1<<15)
-	n := runtime.Stack(buf, false)
-	s := string(buf[:n])
+	n := runtime.Stack(c29StackBuf, false)
+	s := string(c29StackBuf[:n])
 	if strings.HasPrefix(s, "goroutine ") {
 		j := 10
 		for j < len(s) && s[j] >= '0' && s[j] <= '9' {
@@ -696,17 +728,13 @@ func (w *c29World) checkSubmission(L *c29Life, rec *c29Proof, rd *c29Round) {
 	}
 	L.sessKeys[K.sess][K] = true
 	flags := func() string {
-		var f []string
 		if len(L.sessKeys[K.sess]) > 1 {
-			f = append(f, "session-id-shared-by-several-keys")
+			return "session-id-shared-by-several-keys"
 		}
 		if L.overlap {
-			f = append(f, "overlapping-claim-rounds")
+			return "overlapping-claim-rounds"
 		}
-		if len(f) == 0 {
-			return "plain"
-		}
-		return strings.Join(f, "+")
+		return "plain"
 	}
 	kind := "new-claim"
 	if st.n > 1 {
@@ -836,7 +864,18 @@ func (w *c29World) producer(L *c29Life, pi int, n int) {
 				e -= w.epochSize
 			}
 		}
-		sess := w.sessIDs[ci][r.Draw(stream, len(w.sessIDs[ci]))]
+		var sess uint64
+		if w.sessIDs != nil {
+			sess = w.sessIDs[r.Draw(stream, len(w.sessIDs))]
+		} else {
+			si := 0
+			for i, sp := range w.specs {
+				if sp == spec {
+					si = i
+				}
+			}
+			sess = simrt.Mix(0xC29, uint64(ci), uint64(si), e, uint64(r.Draw(stream, 3)))>>1 | 1<<32
+		}
 		K := c29Key{epoch: e, cons: ci, spec: spec, sess: sess}
 		hi := w.hiSent[K]
 		var cu uint64
@@ -952,7 +991,7 @@ func (w *c29World) epochTask(L *c29Life, nEpochs, loadEpochs int) {
 func (w *c29World) paymentsTask(L *c29Life) {
 	tail := 0
 	for {
-		w.sleep("harness:payments", 500*time.Millisecond)
+		w.sleep("harness:payments", time.Second)
 		if w.dead {
 			return
 		}
@@ -974,10 +1013,10 @@ func (w *c29World) paymentsTask(L *c29Life) {
 		if L.epochDone {
 			tail++
 			// payments keep flowing for 1.5 epochs after the last epoch update
-			if time.Duration(tail)*500*time.Millisecond > w.epochDur*3/2 && len(L.payQ) == 0 {
+			if time.Duration(tail)*time.Second > w.epochDur*3/2 && len(L.payQ) == 0 {
 				return
 			}
-			if tail > 400 {
+			if tail > 200 {
 				return
 			}
 		}
@@ -1066,22 +1105,21 @@ func c29NewWorld(r *simrt.Run) *c29World {
 	w.specs = []string{"LAV1", "ETH1"}[:1+r.Draw("cfg", 2)]
 	nCons := 1 + r.Draw("cfg", 3)
 	zr := sigs.NewZeroReader(29)
-	sessMode := r.Draw("cfg", 3)
+	w.sessMode = r.Draw("cfg", 4)
 	for i := 0; i < nCons; i++ {
 		acc := sigs.GenerateDeterministicFloatingKey(zr)
 		w.cons = append(w.cons, c29Consumer{acc: acc, addr: acc.Addr.String()})
-		var ids []uint64
-		switch sessMode {
-		case 0: // short ids shared by all consumers: 1 is a decimal prefix of 10 and 100
-			ids = []uint64{1, 10, 100}
-		case 1:
-			ids = []uint64{1, 10, 7, 4611686018427387904 + uint64(i), 461168601842738790}
-		default: // what consumers do: random 63-bit ids, no collisions
-			for j := 0; j < 3; j++ {
-				ids = append(ids, r.Draw64("cfg")>>1|1<<40)
-			}
-		}
-		w.sessIDs = append(w.sessIDs, ids)
+	}
+	if v := os.Getenv("VERIF_C29_SESSMODE"); v != "" { // development only
+		w.sessMode, _ = strconv.Atoi(v)
+	}
+	switch w.sessMode {
+	case 2: // short ids chosen by the consumers, shared by all of them: 1 is a decimal prefix of 10 and 100
+		w.sessIDs = []uint64{1, 10, 100}
+	case 3: // short and long ids, reused by a consumer across chains and epochs
+		w.sessIDs = []uint64{1, 10, 7, 4611686018427387904, 461168601842738790}
+	default: // what lavasession consumers do: a fresh random 63-bit id per (consumer, chain, epoch, session)
+		w.sessIDs = nil
 	}
 	for _, s := range w.specs {
 		w.disk[s] = &c29Store{spec: s, data: map[string]c29Entry{}, keyOf: map[c29Key]string{}, deletedBy: map[string]string{}}
@@ -1107,8 +1145,8 @@ func c29NewWorld(r *simrt.Run) *c29World {
 			w.adaptiveCrash = r.Draw("cfg", 2) == 1
 		}
 	}
-	r.Logf("config: profile=%s epochSize=%d window=%d memory=%d blocks, chain starts at epoch %d (earliest %d), epoch lasts %v, snapshot threshold=%d timer=%ds, chains=%v, consumers=%d, session ids=%v, lifetimes=%d adaptiveCrash=%v",
-		w.profile, w.epochSize, w.dist, w.memBlocks, w.cur, w.earliest, w.epochDur, w.threshold, w.snapSec, w.specs, nCons, w.sessIDs[0], w.nLives, w.adaptiveCrash)
+	r.Logf("config: profile=%s epochSize=%d window=%d memory=%d blocks, chain starts at epoch %d (earliest %d), epoch lasts %v, snapshot threshold=%d timer=%ds, chains=%v, consumers=%d, session ids=%v (nil: fresh random id per consumer/chain/epoch), lifetimes=%d adaptiveCrash=%v",
+		w.profile, w.epochSize, w.dist, w.memBlocks, w.cur, w.earliest, w.epochDur, w.threshold, w.snapSec, w.specs, nCons, w.sessIDs, w.nLives, w.adaptiveCrash)
 	return w
 }
 
@@ -1402,13 +1440,13 @@ func (w *c29World) finalChecks(L *c29Life) {
 }
 
 func init() {
-	simrt.Register("C29", &simrt.PropSpec{Fn: runC29, Profiles: []string{"clean", "faults", "crash", "crash"},
+	simrt.Register("C29", &simrt.PropSpec{Fn: runC29, Profiles: []string{"clean", "faults", "crash", "crash", "badger", "faults", "crash", "crash"},
 		NonTrivial: func(r *simrt.Run) bool {
 			return r.Ops["proof:ok"] >= 3 && r.Ops["claim:ok"]+r.Ops["claim:failed"] >= 1 && r.Switches >= 50
 		},
-		Rule:    "TODO",
-		Real:    []string{"TODO"},
-		Stubbed: []string{"TODO"},
-		Assume:  []string{"TODO"},
+		Rule: "One run = 1-3 process lifetimes of the real RewardServer+RewardDB, each inside its own synctest bubble under the token-passing scheduler (every lock, atomic, channel op, select, WaitGroup.Wait, sleep and `go` of the instrumented rewardserver package is a scheduling point; every map range is ordered by the simulator: sorted / reversed / shuffled per run). Tasks: 1-4 proof producers (SendNewProof for 1-3 consumers x 1-2 chains x the epochs still inside the active window; CuSum increasing, equal and decreasing; relay numbers that hit the snapshot threshold; session ids either fresh random 63-bit per consumer/chain/epoch as lavasession consumers make them, or short ids 1/10/100/7 shared by consumers, chains and epochs), an epoch task (simulated chain advances, young chain starting at epoch 10/20 or mature chain, UpdateEpoch per epoch), a payment task (relay_payment events built like x/pairing emits them, parsed by BuildPaymentFromRelayPaymentEvent, fed to PaymentHandler), the start-up task (AddDB + restoreRewardsFromDB per chain under the server lock), the server's own snapshot job and claim rounds. Profiles: clean (no fault at all; every best proof must be claimed), faults (tx failure 1/8..7/8, tx panic, tx slower than an epoch, DB write failure, torn batch, DB delete / read failure, missed epoch updates, multi-epoch jumps, lost payment events), crash (faults + 1-2 crashes at a tape-chosen scheduling point or, adaptively, right after an unclaimed durable proof vanished from the disk; downtime 0-6 epochs; restart over the SimDisk content), badger (clean, on the real in-memory Badger). Non-trivial = >=3 accepted proofs, >=1 claim transaction, >=50 context switches; distinct = (op,outcome,fault) sequence x context-switch sequence",
+		Real: []string{"protocol/rpcprovider/rewardserver RewardServer: SendNewProof/saveProofInMemory, UpdateEpoch -> runRewardServerEpochUpdate -> sendRewardsClaim/gatherRewardsForClaim/gatherFailedRequestPaymentsToRetry/updatePaymentRequestAttempt, PaymentHandler, snapshot job (timer + threshold), restoreRewardsFromDB, BuildPaymentFromRelayPaymentEvent (instrumented copies through the build overlay)", "RewardDB (key assembly, BatchSave, FindAllInDB, DeleteClaimedRewards, DeleteEpochRewards)", "BadgerDB on in-memory Badger (profile badger only)", "utils/sigs signing and signer recovery of every proof (deterministic consumer keys)", "goccy/go-json encoding of the stored proofs", "timers / context deadlines on the synctest fake clock"},
+		Stubbed: []string{"RewardsTxSender + ChainTrackerSpecsInf: simulated lava chain (epoch, earliest epoch in memory, payment window = GetEpochSizeMultipliedByRecommendedEpochNumToCollectPayment), TxRelayPayment records every call and fails / panics / is slow by tape", "rewardserver.DB: SimDisk (acknowledged writes durable, write failure, torn batch, delete and read failure), survives crashes", "relay server (producer tasks calling SendNewProof like RPCProviderServer.SendProof)", "state tracker: epoch updates and payment events (routed by description like PaymentUpdater)", "process crash = the bubble of that lifetime ends, nothing but SimDisk and the chain survives", "provider metrics = nil"},
+		Assume: []string{"code between two instrumented synchronisation points is atomic in the simulation (every simulated schedule is a real one, not vice versa): a data race without any lock is invisible", "GetEpochSize reports 1 so that the crypto/rand claim delay of AddRewardDelayForUnifiedRewardDistribution is always 0 (runs stay a function of the tape)", "start-up uses AddDB + restoreRewardsFromDB under the server lock exactly like AddDataBase, whose hard-wired NewLocalDB (Badger on disk) is replaced by the SimDisk handle", "a proof reaches SendNewProof only while its epoch is inside the active window (the session manager rejects relays of blocked epochs); no proof arrives for an epoch that was already gathered for claim", "a claim is linked to its claim round through the goroutine that created the TxRelayPayment goroutine; the memory bound is checked against the earliest epoch the chain reported to that round, the window bound against the chain at the submission instant", "`claimed after restart` means handed to TxRelayPayment at least once with at least the durable CuSum; proofs given up after MaxPaymentRequestsRetiresForSession failed submissions, claimed successfully or paid before the crash are not required", "SimDisk honours the entry TTL (24 h default) on the simulated clock; no run lasts that long"},
 	})
 }
